@@ -113,19 +113,18 @@ func (n *NameTrie[V]) Delete() {
 // DeleteIf deletes the node and its ancestors if they are empty.
 // Whether empty or not is defined by a given function.
 func (n *NameTrie[V]) DeleteIf(pred func(V) bool) {
-	if !pred(n.val) {
+	// A node is empty only if it holds no value and has no children:
+	// the children (and their values) must stay reachable.
+	if !pred(n.val) || len(n.chd) > 0 {
 		return
 	}
-	if n.par != nil {
-		n.chd = nil
-		delete(n.par.chd, n.key)
-		if len(n.par.chd) == 0 {
-			n.par.DeleteIf(pred)
-		}
-	} else {
+	if n.par == nil {
 		// Root node cannot be deleted.
-		n.chd = map[string]*NameTrie[V]{}
+		return
 	}
+	n.chd = nil
+	delete(n.par.chd, n.key)
+	n.par.DeleteIf(pred)
 }
 
 // Depth returns the depth of a node in the tree.
